@@ -47,15 +47,19 @@ def firstSeed (S : SF) (c : Cfg) : Outcome :=
   if consulted && !opened then .crash "nil seen-store in preprocess" else .returned
 
 /-- a stage worker at the moment of the stop: blocked in the pause handshake it honours the stop only if the
-handshake is a select with the context -/
-def workerStop (ack : String) (m : Moment) : Outcome :=
-  if m == .paused && ack != "cancellable" then .hang "worker blocked on the resume channel" else .returned
+handshake is a select with the context; blocked on a hand-over nobody takes any more (the next stage is paused or
+already stopped) it honours the stop only if that send is a select with the context -/
+def workerStop (ack : String) (sendsCancellable : Bool) (m : Moment) : Outcome :=
+  if m == .paused && ack != "cancellable" then .hang "worker blocked on the resume channel"
+  else if (m == .paused || m == .betweenStages || m == .midFetch) && !sendsCancellable then .hang "worker blocked on a send the stop cannot reach"
+  else .returned
 
 /-- `archiver.Stop()`: cancel, wait for the workers, wait for the WARC writers of each client, close it -/
-def archiverStop (A : AF) (U : UF) (c : Cfg) (m : Moment) : Outcome :=
-  match workerStop U.archiverAck m with
+def archiverStop (A : AF) (U : UF) (P : PF) (c : Cfg) (m : Moment) : Outcome :=
+  match workerStop U.archiverAck P.archSendsCancellable m with
   | .returned =>
     if !A.stopCancelsThenWaits then .hang "waits before cancelling" else
+    if m == .midFetch && !P.archiveWaitsForItsCaptures then .crash "the WARC client is closed under captures archive() did not wait for" else
     if A.stopClients == "nilSafe" then (if A.stopClosesAfterWriters then .returned else .crash "closes a client that is still writing")
     else if A.stopClients == "derefsDirectClient" then
       (if c.proxy then .crash "nil dereference of the direct client (only the proxied one exists)" else
@@ -68,10 +72,10 @@ def andThen (a : Outcome) (b : Outcome) : Outcome := match a with | .returned =>
 /-- `stopPipeline()`: freeze the reactor, stop the four stages, the seen-store, the source, the reactor -/
 def stopPipeline (A : AF) (U : UF) (P : PF) (c : Cfg) (m : Moment) : Outcome :=
   if !P.stopOrderFreezeStagesSourceReactor then .hang "a stage is stopped after the component it hands its seeds to" else
-  andThen (workerStop U.preprocessorAck m) <|
-  andThen (archiverStop A U c m) <|
-  andThen (workerStop U.postprocessorAck m) <|
-  workerStop U.finisherAck m
+  andThen (workerStop U.preprocessorAck P.preSendsCancellable m) <|
+  andThen (archiverStop A U P c m) <|
+  andThen (workerStop U.postprocessorAck P.postSendsCancellable m) <|
+  workerStop U.finisherAck true m
 
 /-- a whole run that survives until the stop request and then stops -/
 def runAndStop (A : AF) (S : SF) (U : UF) (P : PF) (c : Cfg) (m : Moment) : Outcome :=
